@@ -58,6 +58,13 @@ InError == rs = "error" /\ UNCHANGED rvars
 
 Reset(t) == rs' = "new" /\ delivered' = 0 /\ total' = t /\ window' = 0
 
+\* Apply is accepted only before the first read; later it fails and leaves the Reader in error
+ApplyEarly == rs = "new" /\ UNCHANGED rvars
+ApplyLate == rs \in {"read", "closed"} /\ rs' = "error" /\ UNCHANGED <<delivered, total, window>>
+
+\* Size() is the declared content size once the header has been read, 0 before (and in error)
+SizeKnown == rs \in {"read", "closed"}
+
 \* ---- the dependent-block window (reader.go: read) -------------------------
 \* one block of b bytes has been decoded
 Trim(win, b) == IF win + b > 2 * W THEN Max(W - b, 0) ELSE win
